@@ -102,7 +102,7 @@ func (c *linChild) finish() (*LinSummary, error) {
 
 // LinCheckMain is the companion's main loop (plain binary).
 func LinCheckMain() int {
-	e := &c20Engine{}
+	e := &c20Engine{schedSigs: map[uint64]struct{}{}}
 	st := kit.NewStats()
 	sum := &LinSummary{}
 	dec := json.NewDecoder(bufio.NewReaderSize(os.Stdin, 1<<16))
